@@ -277,6 +277,18 @@ fn view_json(v: &[(Level, usize, usize)]) -> Value {
     json!(v.iter().map(|(l, n, c)| format!("{}:{}/{}", l.name(), n, if *c == usize::MAX { "MAX".to_string() } else { c.to_string() })).collect::<Vec<_>>())
 }
 
+/// at most `max` written-out samples per lane/kind (no randomness consumed: the seeded streams must
+/// not depend on cross-thread state)
+fn take_sample(mon: &Monitor, key: &str, max: u64) -> bool {
+    let k = format!("samples.{key}");
+    if mon.want_sample() && mon.counter(&k) < max {
+        mon.count(&k, 1);
+        true
+    } else {
+        false
+    }
+}
+
 fn tail(h: &[String], n: usize) -> Vec<String> {
     h.iter().rev().take(n).rev().cloned().collect()
 }
@@ -593,7 +605,7 @@ fn lane_enforcer(mon: &Monitor, rng: &mut Rng, idx: u64) {
                     hist.push(format!("add {} -> {}", cand.brief(), if ok { "ok" } else { "refused" }));
                     if ok {
                         m.add(&cand);
-                        if idx % 7 == 0 && mon.want_sample() && step > 12 && view.as_ref().map(|v| v.iter().any(|x| x.1 >= 1)).unwrap_or(false) {
+                        if idx % 7 == 0 && step > 12 && view.as_ref().map(|v| v.iter().any(|x| x.1 >= 1)).unwrap_or(false) && take_sample(mon, "enforcer.admitted", 1) {
                             mon.sample(json!({"lane": lane, "config": cfg_json(&cfg), "network_size": m.size, "step": "add -> admitted",
                                 "candidate": cand.brief(), "levels(count/cap) before": view.as_ref().map(|v| view_json(v)),
                                 "history_tail": tail(&hist, 8)}));
@@ -610,6 +622,11 @@ fn lane_enforcer(mon: &Monitor, rng: &mut Rng, idx: u64) {
                             );
                         }
                         after = "refused-add";
+                        if idx % 5 == 1 && step > 20 && take_sample(mon, "enforcer.refused", 1) {
+                            mon.sample(json!({"lane": lane, "config": cfg_json(&cfg), "network_size": m.size, "step": "add -> refused, counters unchanged",
+                                "candidate": cand.brief(), "levels(count/cap) before": view.as_ref().map(|v| view_json(v)),
+                                "history_tail": tail(&hist, 8)}));
+                        }
                     }
                 }
             }
@@ -759,7 +776,7 @@ async fn engine_add(mon: &Monitor, w: &mut EWorld, rng: &mut Rng, ip: IpAddr, bu
             judge_decision(mon, lane, "add_node", extra, &w.m, &cand, true, &w.hist);
             w.hist.push(format!("add {} '{}' b{} -> ok", hex8(&id), address, bucket));
             w.m.add(&cand);
-            if mon.want_sample() && w.table.len() > 6 && rng.chance(0.05) {
+            if w.table.len() == 9 && take_sample(mon, "engine.add", 1) {
                 mon.sample(json!({"lane": lane, "scenario": format!("{kind:?}"), "step": "add_node -> Ok", "address": address,
                     "levels(count/cap) before": view.as_ref().map(|v| view_json(v)), "history_tail": tail(&w.hist, 8)}));
             }
@@ -796,6 +813,10 @@ async fn engine_add(mon: &Monitor, w: &mut EWorld, rng: &mut Rng, ip: IpAddr, bu
                 if exp == Some(true) {
                     return AddOutcome::Abort;
                 }
+                if w.table.len() > 4 && take_sample(mon, "engine.refused", 1) {
+                    mon.sample(json!({"lane": lane, "scenario": format!("{kind:?}"), "step": "add_node -> Err(IP diversity limits exceeded)", "address": address,
+                        "levels(count/cap)": w.m.view(&cand).as_ref().map(|v| view_json(v)), "history_tail": tail(&w.hist, 8)}));
+                }
                 AddOutcome::Continue
             } else if msg.contains("Geographic diversity limits exceeded") || msg.contains("K-bucket at capacity") {
                 let why = if msg.contains("K-bucket") { "bucket-full" } else { "region-cap" };
@@ -808,7 +829,7 @@ async fn engine_add(mon: &Monitor, w: &mut EWorld, rng: &mut Rng, ip: IpAddr, bu
                 }
                 // an admission that fails part-way consumes none
                 mon.eval();
-                mon.case((lane, "failed-late", why, cand.fam(), w.table.len().min(12)));
+                mon.case((lane, "failed-late", why, cand.fam()));
                 let now = w.stats().await;
                 let probe = w.probe(ip).await;
                 let leaked = now != before || (exp == Some(true) && probe == Some(false));
@@ -894,7 +915,7 @@ async fn engine_remove(mon: &Monitor, w: &mut EWorld, rng: &mut Rng, via_evict: 
             json!({"field": STAT_NAMES[i], "got": now[i], "reference": want[i], "history_tail": tail(&w.hist, 12)}),
         );
         return AddOutcome::Abort;
-    } else if mon.want_sample() && rng.chance(0.1) {
+    } else if take_sample(mon, "engine.remove", 1) {
         mon.sample(json!({"lane": "engine", "step": format!("{api} -> slot released"), "removed": n.cand.ip.to_string(), "history_tail": tail(&w.hist, 6)}));
     }
     w.removed.push(n.cand);
@@ -1087,7 +1108,7 @@ async fn lane_bootstrap(mon: &Monitor, rng: &mut Rng, idx: u64) {
                 hist.push(format!("add_peer {ip} -> ok"));
                 m.add(&cand);
                 admitted.push(cand.clone());
-                if mon.want_sample() && k > 8 && rng.chance(0.05) {
+                if k > 8 && take_sample(mon, "bootstrap.add", 1) {
                     mon.sample(json!({"lane": "bootstrap", "config": cfg_json(&cfg), "step": "add_peer -> Ok", "address": ip.to_string(),
                         "levels(count/cap) before": view.as_ref().map(|v| view_json(v)), "history_tail": tail(&hist, 6)}));
                 }
@@ -1110,16 +1131,16 @@ async fn lane_bootstrap(mon: &Monitor, rng: &mut Rng, idx: u64) {
 
 fn main() {
     let mon = Monitor::new("C13", "exploration");
-    mon.set_rule("case = one admission / probe / removal step on one enforcer, routing-table engine or bootstrap manager reached by a seeded history; non-trivial when at least one level of the candidate already has count >= 1 (for late-failure and removal steps: the step happened on a non-empty table); distinct by (lane, API, address family, set of levels at cap, hosting flag, outcome)");
+    mon.set_rule("case = one admission / probe / removal step on one enforcer, routing-table engine or bootstrap manager reached by a seeded history; non-trivial when at least one level of the candidate already has count >= 1 (for late-failure and removal steps: the step happened on a non-empty table); distinct by (lane, API, address family, set of levels at cap, hosting flag, outcome); removal steps by (API, family, number of the node's levels still populated); late failures by (reason, family)");
     mon.assume("the IPv4 address level is capped by the network-size rule only (max_nodes_per_ipv4_32 is documented as 'dynamic' and is not treated as a cap)");
     mon.assume("steps whose per-IP limit depends on floating-point rounding of size*fraction (within 1e-9 of an integer) are skipped and counted");
     mon.assume("network sizes up to 2^40; tracking stays far below the 50k-entry bound");
     mon.assume("lane (b): refusal reason is read from the error text; region (50/region) and bucket (8) refusals are legitimate Errs and only their effect on the diversity counters is judged");
     mon.assume("lane (c): join rate limits are configured out of the way (1e6) so that only the diversity gate can refuse");
 
-    let a_n = mon.by_tier(500u64, 30000);
-    let b_n = mon.by_tier(280u64, 12000);
-    let c_n = mon.by_tier(60u64, 1500);
+    let a_n = mon.by_tier(300u64, 8000);
+    let b_n = mon.by_tier(210u64, 6000);
+    let c_n = mon.by_tier(30u64, 300);
     vkit::run_shards(mon.shards(), mon.seed, |_i, mut rng| {
         let rt = checks::rt(false);
         let kinds = [EKind::Evict, EKind::Failure, EKind::BucketFull, EKind::RegionV4, EKind::RegionV6, EKind::DisplayAddr, EKind::Mixed];
